@@ -18,6 +18,13 @@ CLAIMS = {
              "mailbox.push_back, order-preserving operations only, spawner always notified, await registration before a not-finished answer. "
              "They hold for every path of the code, which no test schedule can enumerate; liveness under real interleavings is not decided.",
         design="§3 C04", technique="static analysis: MIR must-pass-through / pairing / who-may-call rules (rustc_private driver + rule evaluator)"),
+    "C01": dict(
+        text="Decides presence and placement of the argument-vs-parameter judgments at every application-emitting site of the compiler (the ten "
+             "sites that construct Call/TailCall/Send/Spawn/Select — the only ways compiled code applies one value to another), with "
+             "outcome-sensitive reachability (the false outcome of the check must not reach the emission) and operand provenance (the check is "
+             "against the callee's own parameter/send type), plus the quantifier polarity of unification over union arguments. Two recorded known "
+             "findings (unchecked tail-call arguments). It does NOT decide that accepted programs never get stuck.",
+        design="§3 C01", technique="static analysis: MIR must-pass-through with outcome-sensitive reachability and operand provenance; HIR loop-return polarity"),
     "C02": dict(
         text="Decides one structural necessary condition of C02: every forward-jump placeholder the code generator plants is pointed at its join "
              "on every non-error path (value flow of the returned address into a patch call through Options and drained Vecs; dead always-None "
